@@ -94,9 +94,9 @@ def cfg_from_topo(topo: List[Dict[str, Any]], clients=(), servers=()) -> Dict[st
     for n in topo:
         ifs = _seq(n["ifs"])
         if n["kind"] == "switch":
-            f = ifs[0]
-            switches[(f["addr"] >> (8 - f["plen"]), f["plen"])] = n["name"]
-            nodes.append({"hostname": n["name"], "type": "switch", "num_ports": 6})
+            for f in ifs:  # (one entry per subnet the switch carries)
+                switches[(f["addr"] >> (8 - f["plen"]), f["plen"])] = n["name"]
+            nodes.append({"hostname": n["name"], "type": "switch", "num_ports": 8})
             continue
         for i, f in enumerate(ifs):
             members.setdefault((f["addr"] >> (8 - f["plen"]), f["plen"]), []).append((n["name"], i + 1))
@@ -129,11 +129,13 @@ def cfg_from_topo(topo: List[Dict[str, Any]], clients=(), servers=()) -> Dict[st
             if n["dflt"]:
                 r["default_route"] = {"next_hop_ip_address": embed(n["dflt"])}
             nodes.append(r)
+    next_port: Dict[str, int] = {}
     for key, mem in members.items():
         sw = switches.get(key)
         if sw:
-            for i, (h, p) in enumerate(mem):
-                links.append(scenarios.link(h, p, sw, i + 1))
+            for (h, p) in mem:
+                next_port[sw] = next_port.get(sw, 0) + 1
+                links.append(scenarios.link(h, p, sw, next_port[sw]))
         elif len(mem) == 2:
             links.append(scenarios.link(mem[0][0], mem[0][1], mem[1][0], mem[1][1]))
         elif len(mem) > 2:
